@@ -71,8 +71,9 @@ pub fn main(opts: &Opts) {
         std::process::exit(2);
     }
     let mut rng = Rng::new(opts.seed ^ 0x5e55);
-    let n = if opts.thorough() { 4000 } else { 400 };
-    let corpus = e2e::corpus();
+    // for C06 only the cut itself is judged (pieces, flags, sizes); the windows are C07's
+    let n = if opts.property == "C06" { 0 } else if opts.thorough() { 4000 } else { 400 };
+    let corpus = if opts.property == "C06" { vec![] } else { e2e::corpus() };
     report.count_n("corpus_cases", corpus.len() as u64);
     for k in 0..(n + corpus.len() as u64) {
         let cfg = if (k as usize) < corpus.len() { corpus[k as usize].clone() } else { e2e::gen_config(&mut rng, k) };
